@@ -396,9 +396,7 @@ func (e *encoderState) WriteToken(t Token) error {
 			break
 		}
 		e.Names.push()
-		if !e.Flags.Get(jsonflags.AllowDuplicateNames) {
-			e.Namespaces.push()
-		}
+		e.Namespaces.push()               // regardless of AllowDuplicateNames, which may differ when the object is closed
 		e.Flags.Clear(jsonflags.TagFlags) // tags only apply to current depth
 	case '}':
 		b = append(b, '}')
@@ -406,9 +404,7 @@ func (e *encoderState) WriteToken(t Token) error {
 			break
 		}
 		e.Names.pop()
-		if !e.Flags.Get(jsonflags.AllowDuplicateNames) {
-			e.Namespaces.pop()
-		}
+		e.Namespaces.pop() // regardless of AllowDuplicateNames, which may differ when the object is closed
 	case '[':
 		b = append(b, '[')
 		err = e.Tokens.pushArray()
